@@ -5,7 +5,8 @@ Reads
   crates/ripd/src/context_compiler.rs : RECENT_MESSAGES_V1_LIMIT, HIERARCHICAL_SUMMARIES_V1_MAX_REFS, and that
       each of the three compile_* functions passes RECENT_MESSAGES_V1_LIMIT to its message selection
   crates/ripd/src/session.rs          : compile_context_bundle_for_run asks for the hierarchy with
-      HIERARCHICAL_SUMMARIES_V1_MAX_REFS levels
+      HIERARCHICAL_SUMMARIES_V1_MAX_REFS levels; the continuity_context_selection_decided / continuity_context_compiled
+      payloads are built field by field from the compile outcome (decision.* / compiled.*)
   crates/ripd/src/continuities.rs     : the input producers accept a window on the same limit
       (`tail.complete || message_count >= RECENT_MESSAGES_V1_LIMIT`, window call with RECENT_MESSAGES_V1_LIMIT)
   crates/ripd/src/continuities.rs     : the checkpoint visibility rule of the two *_for_compile_v1 truth loops
@@ -96,6 +97,16 @@ def main():
         else:
             ok = False
             notes.append("the two truth loops use different checkpoint visibility rules")
+    # the two frames a run logs are a field-by-field copy of the compile outcome (session.rs, InputAction::Prompt)
+    copies = [r"compiler_id\s*:\s*decision\.compiler_id", r"limits\s*:\s*decision\.limits",
+              r"compaction_checkpoint\s*:\s*decision\.compaction_checkpoint\b", r"compaction_checkpoints\s*:\s*decision\.compaction_checkpoints",
+              r"resets\s*:\s*decision\.resets", r"reason\s*:\s*decision\.reason",
+              r"bundle_artifact_id\s*:\s*compiled\.bundle_artifact_id", r"from_seq\s*:\s*compiled\.from_seq",
+              r"from_message_id\s*:\s*compiled\.from_message_id", r"compiler_strategy\s*:\s*decision\.compiler_strategy"]
+    missing = [c for c in copies if not re.search(c, se)]
+    if missing or not re.search(r"let\s+compiler_strategy\s*=\s*decision\.compiler_strategy\.clone\(\)", se):
+        ok = False
+        notes.append("selection_decided / context_compiled payloads are no longer a plain copy of the compile outcome: %s" % missing)
     os.makedirs(a.out, exist_ok=True)
     with open(os.path.join(a.out, "CompileConsts.v"), "w") as f:
         f.write("(* GENERATED by tools/gen/compile_consts.py from crates/ripd/src/{context_compiler,session,continuities}.rs — do not edit *)\n")
